@@ -90,3 +90,24 @@ Theorem C19_history_ids_unique_refuted :
   run_ok ev_caught_up hsys_new lost_mark_witness /\
   log_ids (hrun hsys_new lost_mark_witness) = [2; 3; 4; 1; 2].
 Proof. exact history_ids_unique_refuted. Qed.
+
+(** ---- round 7: the issuer of config history ids over EVERY history of publish (next_state), import
+    (next_section) and arriving replicated marks (set_valid_last_id): ids strictly increase, every id is
+    at or below the highest replicated mark, and a node rebuilt from the marks continues strictly above
+    every id handed out ---- *)
+From RN Require Import SM.IssuerProofs.
+
+Theorem C19_issuer_ids_increase_and_covered : forall l b ops st,
+  0 < b -> irun (mkI (sseq_new l b) None []) ops = Some st ->
+  strictly_desc (i_ids st) /\
+  (forall x, In x (i_ids st) -> exists m, i_top st = Some m /\ x <= m) /\
+  (forall x m, In x (i_ids st) -> i_top st = Some m ->
+     forall s' id upd, next_state (set_valid_last_id (sseq_new 0 b) m) = Some (s', (id, upd)) -> x < id).
+Proof. exact issuer_ids_increase_and_covered. Qed.
+
+(** false of an import that keeps the reserved window (seeded change C18h-m4) *)
+Theorem C19_issuer_keepcache_refuted : exists s0 s1 s2 a b id upd m,
+  next_state (sseq_new 100 7) = Some (s0, (101, Some m)) /\
+  next_section_keepcache s0 10 = (s1, (a, b)) /\ next_state s1 = Some (s2, (id, upd)) /\
+  upd = None /\ N.max m b < id.
+Proof. exact keepcache_refuted. Qed.
